@@ -1,8 +1,272 @@
+import QcoVerif.Model.Connectivity
 /-
-  Stateless driver module `conn`: `handle args` answers one line. Filled in by the Conn model.
+  Stateless driver module `conn`: `handle args` answers one line.
+
+  Tokens: qubit = its index in `Surface17Layer().qubit_ids`; edge = `a-b` (qubit_id0-qubit_id1, orientation kept);
+  operation = `i:q` (idle) | `p:q` (park) | `g:a-b` (gate); lists = comma separated, `-` = empty list.
+  Booleans answer `1`/`0`.  Malformed input answers `bad-arg`, unknown query `bad-op`.
+
+  Table queries (cover the translator):   qubits | edges | edgenames | freq | parity | feedlines | layouts | layout <i>
+  Device logic:                            higher a b | lower a b | getedges q | neighbors q | eneighbors e | moving q e
+  C16 model:                               parking q e… | parkset e… | idle q e… | possible q | forbidden op q |
+                                           allowedops op | allowed e… | allowedmix op… | combsize n k | subgroups n k |
+                                           gen k [max=<n>] e…
+  C16 specification predicates:            spec-accepted e… | spec-pairok e f | spec-parking q e… | spec-parkset e… |
+                                           spec-level e | spec-adjacent a b | spec-seq k n=<n> <seq> e…
+  C17 model:                               derived <layout> <involved> [map=q:i,q:i…] | composite <layout> <involved>
+                                           xe=<edges> xq=<qubits> req=<0|1> lead=<involved'|none>
+  C17 specification predicates:            spec-layer <gates> <parks> | spec-layout <i> | spec-covered <layout>
 -/
 namespace Qco.Driver.Conn
+open Qco.Conn
 
-def handle (_args : List String) : String := "bad-op"
+def b2s (b : Bool) : String := if b then "1" else "0"
+
+def joinWith (sep : String) (l : List String) : String := sep.intercalate l
+
+def natList (l : List Nat) : String := if l.isEmpty then "-" else joinWith "," (l.map toString)
+
+def edgeStr (e : Edge) : String := s!"{e.1}-{e.2}"
+
+def edgeList (l : List Edge) : String := if l.isEmpty then "-" else joinWith "," (l.map edgeStr)
+
+def opStr : Op → String
+  | .idle q => s!"i:{q}"
+  | .park q => s!"p:{q}"
+  | .gate e => s!"g:{edgeStr e}"
+
+def opList (l : List Op) : String := if l.isEmpty then "-" else joinWith "," (l.map opStr)
+
+def parseQubit (s : String) : Option Nat := s.toNat?
+
+def parseEdge (s : String) : Option Edge :=
+  match s.splitOn "-" with
+  | [a, b] => match a.toNat?, b.toNat? with
+    | some x, some y => some (x, y)
+    | _, _ => none
+  | _ => none
+
+def parseAll {α} (f : String → Option α) : List String → Option (List α)
+  | [] => some []
+  | x :: xs => match f x, parseAll f xs with
+    | some y, some ys => some (y :: ys)
+    | _, _ => none
+
+def parseCsv {α} (f : String → Option α) (s : String) : Option (List α) :=
+  if s == "-" || s == "" then some [] else parseAll f (s.splitOn ",")
+
+def parseOp (s : String) : Option Op :=
+  match s.splitOn ":" with
+  | ["i", q] => (parseQubit q).map Op.idle
+  | ["p", q] => (parseQubit q).map Op.park
+  | ["g", e] => (parseEdge e).map Op.gate
+  | _ => none
+
+def parsePair (s : String) : Option (Nat × Nat) :=
+  match s.splitOn ":" with
+  | [a, b] => match a.toNat?, b.toNat? with
+    | some x, some y => some (x, y)
+    | _, _ => none
+  | _ => none
+
+/-- qubits must be device qubits: the code raises KeyError otherwise (totalised in the model) -/
+def qOk (q : Nat) : Bool := q < nQubits
+def eOk (e : Edge) : Bool := qOk e.1 && qOk e.2
+def opOk : Op → Bool
+  | .idle q => qOk q
+  | .park q => qOk q
+  | .gate e => eOk e
+
+def parityStr (l : List Parity) : String :=
+  if l.isEmpty then "-" else joinWith ";" (l.map (fun p => s!"{p.1}:{p.2.1}:{natList p.2.2}"))
+
+def layerStr (l : Layer) : String := s!"g={edgeList l.1} p={natList l.2}"
+
+def layersStr (l : List Layer) : String := if l.isEmpty then "-" else joinWith "|" (l.map layerStr)
+
+def seqStr (s : List (List Nat)) : String := if s.isEmpty then "-" else joinWith ";" (s.map natList)
+
+def seqsStr (l : List (List (List Nat))) : String := if l.isEmpty then "none" else joinWith "|" (l.map seqStr)
+
+def parseSeq (s : String) : Option (List (List Nat)) :=
+  if s == "-" then some [] else parseAll (parseCsv parseQubit) (s.splitOn ";")
+
+def optStr {α} (f : α → String) : Option α → String
+  | none => "keyerror"
+  | some x => f x
+
+def pairList (l : List (Nat × Nat)) : String :=
+  if l.isEmpty then "-" else joinWith "," (l.map (fun p => s!"{p.1}:{p.2}"))
+
+/-- everything the harness observes of a description: ids, layers, the four getters -/
+def descStr (d : Desc) : String :=
+  let n := d.layers.length
+  let gidx := (List.range (n + 1)).map (fun i =>
+    match gateSequenceIndices d.index d.layers i with
+    | none => "None"
+    | some r => optStr pairList r)
+  let pidx := (List.range (n + 1)).map (fun i =>
+    match parkSequenceIndices d.index d.qubitIds d.layers i with
+    | none => "None"
+    | some r => optStr natList r)
+  s!"data={natList d.dataIds} anc={natList d.ancillaIds} ids={natList d.qubitIds} layers={layersStr d.layers} " ++
+  s!"gidx={joinWith "|" gidx} pidx={joinWith "|" pidx} cmap={optStr pairList d.channelMap}"
+
+/-- flags of `Spec.layerOk`, in the order edges, distinct, parkedNotGated, requiredParked, accepted -/
+def layerFlags (l : Layer) : String :=
+  joinWith "" [b2s (Spec.layerGatesAreEdges l), b2s (Spec.layerQubitsDistinct l), b2s (Spec.layerParkedNotGated l),
+    b2s (Spec.layerRequiredParked l), b2s (Spec.layerAccepted l)]
+
+/-- the soundness predicate of a generated sequence: steps of size k, each index exactly once, every step accepted
+(by the specification predicate) -/
+def seqSound (es : List Edge) (k : Nat) (seq : List (List Nat)) : Bool :=
+  seq.all (fun st => st.length == k) &&
+  (isort natLe seq.flatten == List.range es.length) &&
+  seq.all (fun st => Spec.accepted (st.map (fun i => es.getD i (0, 0))))
+
+def keyVal (key : String) (s : String) : Option String :=
+  if s.startsWith (key ++ "=") then some ((s.drop (key.length + 1)).toString) else none
+
+def withEdges (rest : List String) (f : List Edge → String) : String :=
+  match parseAll parseEdge rest with
+  | some es => if es.all eOk then f es else "bad-arg"
+  | none => "bad-arg"
+
+def withQubitEdges (rest : List String) (f : Nat → List Edge → String) : String :=
+  match rest with
+  | q :: es => match parseQubit q, parseAll parseEdge es with
+    | some q, some es => if qOk q && es.all eOk then f q es else "bad-arg"
+    | _, _ => "bad-arg"
+  | _ => "bad-arg"
+
+def withLayout (tok : String) (f : Layout → String) : String :=
+  match tok.toNat? with
+  | some i => match layouts[i]? with
+    | some L => f L
+    | none => "bad-arg"
+  | none => "bad-arg"
+
+def handle (args : List String) : String :=
+  match args with
+  -- tables
+  | ["qubits"] => joinWith "," qubitNames
+  | ["edges"] => edgeList deviceEdges
+  | ["edgenames"] => joinWith "," Gen.Surface17.edgeNames
+  | ["freq"] => natList (qubitIds.map (fun q => (freqOf q).code))
+  | ["parity"] => s!"x={parityStr Gen.Surface17.parityX} z={parityStr Gen.Surface17.parityZ}"
+  | ["feedlines"] => joinWith ";" (Gen.Surface17.feedlines.map (fun f => s!"{f.1}:{natList f.2}"))
+  | ["layouts"] => joinWith "," ((layouts.map (·.name)) ++ Gen.Layouts.extraNames.map (fun n => "extra:" ++ n))
+  | ["layout", i] => withLayout i (fun L =>
+      s!"name={L.name} layers={layersStr L.layers} x={parityStr L.parityX} z={parityStr L.parityZ} " ++
+      s!"data={natList L.dataIds} anc={natList L.ancillaIds}")
+  -- device logic
+  | ["higher", a, b] => match a.toNat?, b.toNat? with
+    | some a, some b => if a < 3 && b < 3 then b2s ((Freq.ofCode a).isHigher (Freq.ofCode b)) else "bad-arg"
+    | _, _ => "bad-arg"
+  | ["lower", a, b] => match a.toNat?, b.toNat? with
+    | some a, some b => if a < 3 && b < 3 then b2s ((Freq.ofCode a).isLower (Freq.ofCode b)) else "bad-arg"
+    | _, _ => "bad-arg"
+  | ["getedges", q] => match parseQubit q with
+    | some q => if qOk q then edgeList (getEdges q) else "bad-arg"
+    | none => "bad-arg"
+  | ["neighbors", q] => match parseQubit q with
+    | some q => if qOk q then natList (neighbors q) else "bad-arg"
+    | none => "bad-arg"
+  | ["eneighbors", e] => withEdges [e] (fun es => natList (edgeNeighbors (es.headD (0, 0))))
+  | ["moving", q, e] => withQubitEdges [q, e] (fun q es => b2s (onMovingSide q (es.headD (0, 0))))
+  -- C16 model
+  | "parking" :: rest => withQubitEdges rest (fun q es => b2s (requiresParking q es))
+  | "parkset" :: rest => withEdges rest (fun es => natList (qubitIds.filter (fun q => requiresParking q es)))
+  | "idle" :: rest => withQubitEdges rest (fun q es => b2s (requiresIdle q es))
+  | ["possible", q] => match parseQubit q with
+    | some q => if qOk q then opList (possibleOps q) else "bad-arg"
+    | none => "bad-arg"
+  | ["forbidden", op, q] => match parseOp op, parseQubit q with
+    | some op, some q => if opOk op && qOk q then opList (forbiddenOps op q) else "bad-arg"
+    | _, _ => "bad-arg"
+  | ["allowedops", op] => match parseOp op with
+    | some op => if opOk op then opList (allowedOps op) else "bad-arg"
+    | none => "bad-arg"
+  | "allowed" :: rest => withEdges rest (fun es => b2s (allowedGates es))
+  | "allowedmix" :: rest => match parseAll parseOp rest with
+    | some ops => if ops.all opOk then b2s (mutuallyAllowed ops) else "bad-arg"
+    | none => "bad-arg"
+  | ["combsize", n, k] => match n.toNat?, k.toNat? with
+    | some n, some k => if k == 0 then "zerodivision" else toString (combinationSize n k)
+    | _, _ => "bad-arg"
+  | ["subgroups", n, k] => match n.toNat?, k.toNat? with
+    | some n, some k => if k == 0 then "bad-arg" else seqsStr (subgroupCombinations (List.range n) k)
+    | _, _ => "bad-arg"
+  | "gen" :: k :: rest =>
+    let (mx, rest) := match rest with
+      | m :: r => match (keyVal "max" m).bind (·.toNat?) with
+        | some v => (v, r)
+        | none => (20000, m :: r)
+      | [] => (20000, [])
+    match k.toNat? with
+    | some k => if k == 0 then "bad-arg" else withEdges rest (fun es =>
+        match constructAllowed es k mx with
+        | none => "exceed"
+        | some l => seqsStr l)
+    | none => "bad-arg"
+  -- C16 specification predicates
+  | "spec-accepted" :: rest => withEdges rest (fun es => b2s (Spec.accepted es))
+  | ["spec-pairok", e, f] => withEdges [e, f] (fun es => b2s (Spec.pairOk (es.getD 0 (0, 0)) (es.getD 1 (0, 0))))
+  | "spec-parking" :: rest => withQubitEdges rest (fun q es => b2s (Spec.needsParking q es))
+  | "spec-parkset" :: rest => withEdges rest (fun es => natList (qubitIds.filter (fun q => Spec.needsParking q es)))
+  | ["spec-level", e] => withEdges [e] (fun es => toString (Spec.level (es.headD (0, 0))))
+  | ["spec-adjacent", a, b] => match parseQubit a, parseQubit b with
+    | some a, some b => b2s (Spec.adjacent a b)
+    | _, _ => "bad-arg"
+  | "spec-seq" :: k :: seq :: rest => match k.toNat?, parseSeq seq with
+    | some k, some seq => withEdges rest (fun es => b2s (seqSound es k seq))
+    | _, _ => "bad-arg"
+  -- C17 model
+  | "derived" :: lay :: inv :: rest => withLayout lay (fun L =>
+      match parseCsv parseQubit inv with
+      | none => "bad-arg"
+      | some inv =>
+        let mp : Option (Option (List (Nat × Nat))) := match rest with
+          | [] => some none
+          | [m] => match (keyVal "map" m).bind (parseCsv parsePair) with
+            | some l => some (some l)
+            | none => none
+          | _ => none
+        match mp with
+        | none => "bad-arg"
+        | some mp => if inv.all qOk then descStr (fromConnectivity L inv mp) else "bad-arg")
+  | ["composite", lay, inv, xe, xq, req, lead] => withLayout lay (fun L =>
+      let leadInv : Option (Option (List Nat)) := match keyVal "lead" lead with
+        | some "none" => some none
+        | some l => (parseCsv parseQubit l).map some
+        | none => none
+      match parseCsv parseQubit inv, (keyVal "xe" xe).bind (parseCsv parseEdge), (keyVal "xq" xq).bind (parseCsv parseQubit),
+            keyVal "req" req, leadInv with
+      | some inv, some xe, some xq, some req, some leadInv =>
+        if inv.all qOk && xe.all eOk && xq.all qOk && (leadInv.getD []).all qOk then
+          let base := fromConnectivity L inv
+          let leadDesc := leadInv.map (fun i => fromConnectivity L i)
+          let layers := compositeLayers ((leadDesc.getD base).layers) xe xq (req == "1")
+          let ids := compositeQubitIds base.qubitIds (leadDesc.map (·.qubitIds))
+          -- the harness passes `_qubit_index_map` = positions in unique_in_order(involved ++ leading involved)
+          let index := lookupLast (enumFrom 0 (uniqueInOrder qEq (inv ++ leadInv.getD [])))
+          let n := layers.length
+          let gidx := (List.range (n + 1)).map (fun i => match gateSequenceIndices index layers i with
+            | none => "None"
+            | some r => optStr pairList r)
+          let pidx := (List.range (n + 1)).map (fun i => match parkSequenceIndices index ids layers i with
+            | none => "None"
+            | some r => optStr natList r)
+          s!"ids={natList ids} layers={layersStr layers} gidx={joinWith "|" gidx} pidx={joinWith "|" pidx} " ++
+          s!"cmap={optStr pairList (buildChannelMap index [] ids)}"
+        else "bad-arg"
+      | _, _, _, _, _ => "bad-arg")
+  -- C17 specification predicates
+  | ["spec-layer", g, p] => match (keyVal "g" g).bind (parseCsv parseEdge), (keyVal "p" p).bind (parseCsv parseQubit) with
+    | some g, some p => if g.all eOk && p.all qOk then layerFlags (g, p) else "bad-arg"
+    | _, _ => "bad-arg"
+  | ["spec-layout", i] => withLayout i (fun L => joinWith "," (L.layers.map layerFlags))
+  | ["spec-covered", i] => withLayout i (fun L => b2s (Spec.parityCovered L.parity L.layers))
+  | _ => "bad-op"
 
 end Qco.Driver.Conn
